@@ -53,7 +53,7 @@ STANDINS = {
 }
 
 
-def slice_replay(standins=STANDINS, slicepkg='internal/zzslice', extra_roots=(), inpkg=None):
+def slice_replay(standins=STANDINS, slicepkg='internal/zzslice', extra_roots=(), inpkg=None, gosync=False):
     """R2 replay: verbatim declaration slice of the package (function bodies
     byte-identical to the working tree) compiled natively against Go stand-ins
     of the FFI leaf packages, run on the model."""
@@ -80,6 +80,28 @@ def slice_replay(standins=STANDINS, slicepkg='internal/zzslice', extra_roots=(),
             virt = modpath + '/internal/zzstand/' + sd
             cmd += ['--rewrite', '%s=%s' % (imp, virt)]
             ov[os.path.join(moddir, 'internal/zzstand', sd, f)] = real
+        if gosync:
+            # GOROOT's sync sources (the ones llgo compiles) as a stand-in package whose
+            # runtime_* hooks call back into the sliced llgo runtime package
+            rcg, goroot = C.sh(['go', 'env', 'GOROOT'], cwd=moddir)
+            goroot = goroot.strip().split('\n')[-1]
+            zs = modpath + '/internal/zzstand/'
+            for f in ['mutex.go', 'rwmutex.go', 'waitgroup.go', 'once.go', 'cond.go', 'runtime2.go']:
+                sp = os.path.join(goroot, 'src', 'sync', f)
+                if not os.path.exists(sp):
+                    return 2, 'gosync stand-in: %s not found (sync layout of this Go release is not supported by the replay)' % sp
+                txt = open(sp).read().replace('"sync/atomic"', '"%sgatomic"' % zs).replace('"internal/race"', '"%sgrace"' % zs)
+                import re as _re
+                txt = _re.sub(r'(?m)^//go:linkname .*$', '//', txt)  # push-linknames into other std packages would clash with the host's sync
+                txt = _re.sub(r'(?m)^func (throw|fatal)\(string\).*$', '', txt)  # bodiless (provided by the runtime); runtime.go of the stand-in defines them
+                tp = os.path.join(d, 'gosync_' + f)
+                open(tp, 'w').write(txt)
+                ov[os.path.join(moddir, 'internal/zzstand/gosync', f)] = tp
+            sd = os.path.join(ctx_verif(), 'harness', 'standins')
+            ov[os.path.join(moddir, 'internal/zzstand/gosync/runtime.go')] = os.path.join(sd, 'gosync', 'runtime.go')
+            ov[os.path.join(moddir, 'internal/zzstand/gatomic/atomic.go')] = os.path.join(sd, 'gatomic', 'atomic.go')
+            ov[os.path.join(moddir, 'internal/zzstand/grace/race.go')] = os.path.join(sd, 'grace', 'race.go')
+            cmd += ['--rewrite', 'sync=%sgosync' % zs]
         rc, log = C.sh(cmd, timeout=300)
         if rc != 0:
             return 2, 'slice failed: ' + log
@@ -382,7 +404,15 @@ def c11(ctx):
                    os.path.join(ctx.repo, 'runtime/internal/lib/sync/atomic'), [H(ctx, 'C11', 'value_h.go')], tags='llgo', unwind=30,
                    deadline_s=900 if q else 3000, extra=['--spurious', '0', '--sched-steps', '300', '--preempt', '2'],
                    replay=slice_replay(inpkg='latomic_inpkg.go'))  # Value has no condition variables; preemption bound 2 in both tiers (3 does not finish)
-    return [librt_job(ctx, 'sema', [H(ctx, 'C11', 'sema_h.go')], unwind=30, deadline_s=900 if q else 3000, extra=ex), value]
+    sync_roots = ['sync_runtime_Semacquire', 'sync_runtime_SemacquireWaitGroup', 'sync_runtime_SemacquireMutex', 'sync_runtime_SemacquireRWMutexR',
+                  'sync_runtime_SemacquireRWMutex', 'sync_runtime_Semrelease', 'sync_runtime_notifyListAdd', 'sync_runtime_notifyListWait',
+                  'sync_runtime_notifyListNotifyAll', 'sync_runtime_notifyListNotifyOne', 'sync_runtime_canSpin', 'sync_runtime_doSpin', 'nd_int64']
+    syncj = librt_job(ctx, 'sync', [H(ctx, 'C11', 'ndgo_h.go'), H(ctx, 'C11', 'sync_h.go')], unwind=30, deadline_s=900 if q else 3000,
+                      replay=slice_replay(extra_roots=sync_roots, inpkg='librt_sync_inpkg.go', gosync=True),
+                      only=['H_sync_mutex2', 'H_sync_mutex_relock', 'H_sync_mutex3', 'H_sync_rwmutex', 'H_sync_rwmutex_2w', 'H_sync_waitgroup',
+                            'H_sync_waitgroup_2wait', 'H_sync_once', 'H_sync_cond_signal', 'H_sync_cond_broadcast1'] if q else None,
+                      extra=['--real-sync', '--spurious', '0', '--sched-steps', '400', '--preempt', '2' if q else '3'])
+    return [librt_job(ctx, 'sema', [H(ctx, 'C11', 'ndgo_h.go'), H(ctx, 'C11', 'sema_h.go')], unwind=30, deadline_s=900 if q else 3000, extra=ex), value, syncj]
 
 
 @prop('C06', level='other', title='maps behave as finite maps')
